@@ -25,6 +25,9 @@ def run(ctx, rep):
     rep.configs.append("default")
     n = CF.check_layouts(fx, rep, "C09.1")
     rep.floor("C09.1", n, 3, "record types")
+    # "the documented layout": field order and format constants of the three records are those of the format description (an
+    # all-u32 record with two fields swapped has the same size, alignment and offsets - and writer and reader agree on it)
+    CF.check_v1_table(fx, rep, "C09.1")
     wv = CF.WriterView(fx, rep, "C09.2")
     if wv.ok:
         seqs = CF.check_emission(fx, rep, "C09.2", wv)
